@@ -30,7 +30,7 @@ def build_cases(tier, seed):
         steps = random_spec(s, prof)["sim"]["steps"]
         # no generators at all: nothing competes with the cancellation clock (drivers still act)
         ctrl = {"stack": []} if i % 2 == 0 else BUILTIN
-        cases.append(trace_case("C11", i, s, prof, ctrl, steps, ["C11"]))
+        cases.append(trace_case("C11", i, s, prof, ctrl, steps, ["C11"], opts=({"cosim_noops": 4 + i % 5} if i % 3 == 1 else {})))
     return cases
 
 
